@@ -34,6 +34,9 @@ type verifDatagram struct {
 	Addr string `json:"addr"` // exporter address, hex (4 or 16 octets)
 	Port int    `json:"port"`
 	Data string `json:"data"` // payload, hex
+	// pipeline the datagram goes to; empty = the request's Proto (traffic on another protocol's pipeline runs
+	// alongside, with workers of its own)
+	Proto string `json:"proto,omitempty"`
 }
 
 type verifRequest struct {
@@ -62,6 +65,8 @@ type verifPhaseResult struct {
 	Published    []string `json:"published"` // hex payloads taken from the MQ channel
 	DecodedDelta uint64   `json:"decoded_delta"`
 	Mirrored     int      `json:"mirrored"` // datagrams the workers queued for mirroring
+	// payloads published by the other pipelines that had traffic in this phase
+	Others map[string][]string `json:"others,omitempty"`
 }
 
 type verifResponse struct {
@@ -132,105 +137,125 @@ func verifPipeline(req *verifRequest) (resp verifResponse) {
 
 	ix, n9, n5, sf := NewIPFIX(), NewNetflowV9(), NewNetflowV5(), NewSFlow()
 
+	// the four pipelines: queue to drain, queue length, decoded counter, worker, injection as the receive loop does
+	// (pooled buffer, copy, b[:n], send)
+	type pipe struct {
+		mq      chan []byte
+		qlen    func() int
+		decoded func() uint64
+		worker  func(chan struct{})
+		inject  func(*net.UDPAddr, []byte)
+	}
+	pipes := map[string]*pipe{
+		"ipfix": {ipfixMQCh, func() int { return len(ipfixUDPCh) }, func() uint64 { return atomic.LoadUint64(&ix.stats.DecodedCount) }, ix.ipfixWorker,
+			func(raddr *net.UDPAddr, data []byte) {
+				b := ipfixBuffer.Get().([]byte)
+				n := copy(b, data)
+				ipfixUDPCh <- IPFIXUDPMsg{raddr, b[:n]}
+			}},
+		"nf9": {netflowV9MQCh, func() int { return len(netflowV9UDPCh) }, func() uint64 { return atomic.LoadUint64(&n9.stats.DecodedCount) }, n9.netflowV9Worker,
+			func(raddr *net.UDPAddr, data []byte) {
+				b := netflowV9Buffer.Get().([]byte)
+				n := copy(b, data)
+				netflowV9UDPCh <- NetflowV9UDPMsg{raddr, b[:n]}
+			}},
+		"nf5": {netflowV5MQCh, func() int { return len(netflowV5UDPCh) }, func() uint64 { return atomic.LoadUint64(&n5.stats.DecodedCount) }, n5.netflowV5Worker,
+			func(raddr *net.UDPAddr, data []byte) {
+				b := netflowV5Buffer.Get().([]byte)
+				n := copy(b, data)
+				netflowV5UDPCh <- NetflowV5UDPMsg{raddr, b[:n]}
+			}},
+		"sflow": {sFlowMQCh, func() int { return len(sFlowUDPCh) }, func() uint64 { return atomic.LoadUint64(&sf.stats.DecodedCount) }, sf.sFlowWorker,
+			func(raddr *net.UDPAddr, data []byte) {
+				b := sFlowBuffer.Get().([]byte)
+				n := copy(b, data)
+				sFlowUDPCh <- SFUDPMsg{raddr, b[:n]}
+			}},
+	}
+	if pipes[req.Proto] == nil {
+		resp.Error = "unknown proto " + req.Proto
+		return
+	}
+
 	for _, phase := range req.Phases {
 		var (
-			wg      sync.WaitGroup
-			quits   []chan struct{}
-			pr      verifPhaseResult
-			before  uint64
-			drained = make(chan struct{})
-			stop    = make(chan struct{})
-			mq      chan []byte
+			wg    sync.WaitGroup
+			dwg   sync.WaitGroup
+			quits []chan struct{}
+			pr    verifPhaseResult
+			stop  = make(chan struct{})
 		)
-		switch req.Proto {
-		case "ipfix":
-			mq, before = ipfixMQCh, atomic.LoadUint64(&ix.stats.DecodedCount)
-		case "nf9":
-			mq, before = netflowV9MQCh, atomic.LoadUint64(&n9.stats.DecodedCount)
-		case "nf5":
-			mq, before = netflowV5MQCh, atomic.LoadUint64(&n5.stats.DecodedCount)
-		case "sflow":
-			mq, before = sFlowMQCh, atomic.LoadUint64(&sf.stats.DecodedCount)
-		default:
-			resp.Error = "unknown proto " + req.Proto
-			return
+		// the pipelines this phase has traffic for: the one under test plus those of datagrams naming another protocol
+		active := []string{req.Proto}
+		for _, d := range phase {
+			if d.Proto == "" || d.Proto == req.Proto {
+				continue
+			}
+			if pipes[d.Proto] == nil {
+				resp.Error = "unknown proto " + d.Proto
+				return
+			}
+			seen := false
+			for _, a := range active {
+				seen = seen || a == d.Proto
+			}
+			if !seen {
+				active = append(active, d.Proto)
+			}
 		}
-		// consumer of the message queue (the producer's role)
-		go func() {
-			defer close(drained)
-			for {
-				select {
-				case b := <-mq:
-					pr.Published = append(pr.Published, hex.EncodeToString(b))
-				case <-stop:
-					for {
-						select {
-						case b := <-mq:
-							pr.Published = append(pr.Published, hex.EncodeToString(b))
-						default:
-							return
+		before := pipes[req.Proto].decoded()
+		published := map[string]*[]string{}
+		for _, name := range active {
+			p, out := pipes[name], new([]string)
+			published[name] = out
+			// consumer of the message queue (the producer's role)
+			dwg.Add(1)
+			go func() {
+				defer dwg.Done()
+				for {
+					select {
+					case b := <-p.mq:
+						*out = append(*out, hex.EncodeToString(b))
+					case <-stop:
+						for {
+							select {
+							case b := <-p.mq:
+								*out = append(*out, hex.EncodeToString(b))
+							default:
+								return
+							}
 						}
 					}
 				}
-			}
-		}()
-		// workers, started as run() starts them
-		for n := 0; n < req.Workers; n++ {
-			wQuit := make(chan struct{})
-			quits = append(quits, wQuit)
-			wg.Add(1)
-			go func() {
-				defer wg.Done()
-				switch req.Proto {
-				case "ipfix":
-					ix.ipfixWorker(wQuit)
-				case "nf9":
-					n9.netflowV9Worker(wQuit)
-				case "nf5":
-					n5.netflowV5Worker(wQuit)
-				case "sflow":
-					sf.sFlowWorker(wQuit)
-				}
 			}()
+			// workers, started as run() starts them
+			for n := 0; n < req.Workers; n++ {
+				wQuit := make(chan struct{})
+				quits = append(quits, wQuit)
+				wg.Add(1)
+				go func() {
+					defer wg.Done()
+					p.worker(wQuit)
+				}()
+			}
 		}
-		// injection, as the receive loop does: pooled buffer, copy, b[:n], send
 		for _, d := range phase {
 			raddr, data, err := verifUDPAddr(d)
 			if err != nil {
 				resp.Error = err.Error()
 				return
 			}
-			switch req.Proto {
-			case "ipfix":
-				b := ipfixBuffer.Get().([]byte)
-				n := copy(b, data)
-				ipfixUDPCh <- IPFIXUDPMsg{raddr, b[:n]}
-			case "nf9":
-				b := netflowV9Buffer.Get().([]byte)
-				n := copy(b, data)
-				netflowV9UDPCh <- NetflowV9UDPMsg{raddr, b[:n]}
-			case "nf5":
-				b := netflowV5Buffer.Get().([]byte)
-				n := copy(b, data)
-				netflowV5UDPCh <- NetflowV5UDPMsg{raddr, b[:n]}
-			case "sflow":
-				b := sFlowBuffer.Get().([]byte)
-				n := copy(b, data)
-				sFlowUDPCh <- SFUDPMsg{raddr, b[:n]}
+			name := d.Proto
+			if name == "" {
+				name = req.Proto
 			}
+			pipes[name].inject(raddr, data)
 		}
-		// quiescence: queue empty, then workers told to quit and joined
+		// quiescence: queues empty, then workers told to quit and joined
 		for {
-			var l int
-			switch req.Proto {
-			case "ipfix":
-				l = len(ipfixUDPCh)
-			case "nf9":
-				l = len(netflowV9UDPCh)
-			case "nf5":
-				l = len(netflowV5UDPCh)
-			case "sflow":
-				l = len(sFlowUDPCh)
+			l := 0
+			for _, name := range active {
+				l += pipes[name].qlen()
 			}
 			if l == 0 {
 				break
@@ -242,16 +267,14 @@ func verifPipeline(req *verifRequest) (resp verifResponse) {
 		}
 		wg.Wait()
 		close(stop)
-		<-drained
-		switch req.Proto {
-		case "ipfix":
-			pr.DecodedDelta = atomic.LoadUint64(&ix.stats.DecodedCount) - before
-		case "nf9":
-			pr.DecodedDelta = atomic.LoadUint64(&n9.stats.DecodedCount) - before
-		case "nf5":
-			pr.DecodedDelta = atomic.LoadUint64(&n5.stats.DecodedCount) - before
-		case "sflow":
-			pr.DecodedDelta = atomic.LoadUint64(&sf.stats.DecodedCount) - before
+		dwg.Wait()
+		pr.Published = *published[req.Proto]
+		pr.DecodedDelta = pipes[req.Proto].decoded() - before
+		for _, name := range active[1:] {
+			if pr.Others == nil {
+				pr.Others = map[string][]string{}
+			}
+			pr.Others[name] = *published[name]
 		}
 		// what the workers queued for mirroring goes through the real mirror function
 		if req.Mirror {
